@@ -3,4 +3,289 @@ import PM.Step
 import Proofs.StepToks
 import Proofs.Marks
 namespace PM
+
+/-! ### markup bookkeeping -/
+
+theorem sameMarkup_tyOf (S : Schema) {a b : Node} (h : a.sameMarkup b = true) : S.tyOf a = S.tyOf b := by
+  cases a <;> cases b <;> simp_all [Node.sameMarkup, Schema.tyOf, Node.tyOr]
+
+theorem sameMarkup_join {a b c : Node} (h1 : a.sameMarkup c = true) (h2 : b.sameMarkup c = true) :
+    a.sameMarkup b = true := by
+  cases a <;> cases b <;> cases c <;> simp_all [Node.sameMarkup]
+
+theorem sameMarkup_symm {a b : Node} (h : a.sameMarkup b = true) : b.sameMarkup a = true := by
+  cases a <;> cases b <;> simp_all [Node.sameMarkup]
+
+theorem sameMarkup_trans {a b c : Node} (h1 : a.sameMarkup b = true) (h2 : b.sameMarkup c = true) :
+    a.sameMarkup c = true := by
+  cases a <;> cases b <;> cases c <;> simp_all [Node.sameMarkup]
+
+theorem sameMarkup_elem_eq {a b : Node} {t : TypeId} {at' : Attrs} {m : Marks} {k : List Node}
+    (hb : b = .elem t at' m k) (h : a.sameMarkup b = true) : a = .elem t at' m a.kids := by
+  subst hb
+  cases a <;> simp_all [Node.sameMarkup, Node.kids]
+
+/-- a replace only succeeds on an element node -/
+theorem fromReplace_elem (S : Schema) (doc doc' : Node) (f t : Nat) (sl : Slice)
+    (h : S.fromReplace doc f t sl = .ok doc') : ∃ ty a m k, doc = .elem ty a m k := by
+  unfold Schema.fromReplace Schema.replace at h
+  cases doc with
+  | text s m => simp at h
+  | leaf ty a m => simp at h
+  | elem ty a m kids => exact ⟨ty, a, m, kids, rfl⟩
+
+theorem apply_replace_from (S : Schema) (doc doc' : Node) (f t : Nat) (sl : Slice) (st : Bool)
+    (h : S.apply (.replace f t sl st) doc = .ok doc') : S.fromReplace doc f t sl = .ok doc' := by
+  unfold Schema.apply at h
+  simp only at h
+  split at h
+  · split at h
+    · simp at h
+    · simp at h
+    · exact h
+  · exact h
+
+theorem apply_addMark_elem (S : Schema) (doc doc' : Node) (f t : Nat) (m : Mark)
+    (h : S.apply (.addMark f t m) doc = .ok doc') : ∃ ty a mk k, doc = .elem ty a mk k := by
+  unfold Schema.apply at h
+  simp only at h
+  split at h
+  · simp at h
+  · split at h
+    · simp at h
+    · exact fromReplace_elem S doc doc' f t _ h
+
+theorem apply_removeMark_elem (S : Schema) (doc doc' : Node) (f t : Nat) (m : Mark)
+    (h : S.apply (.removeMark f t m) doc = .ok doc') : ∃ ty a mk k, doc = .elem ty a mk k := by
+  unfold Schema.apply at h
+  simp only at h
+  split at h
+  · simp at h
+  · exact fromReplace_elem S doc doc' f t _ h
+
+/-! ### slices -/
+
+theorem Slice.toks_length_of_wf {sl : Slice} (hwf : sl.wf = true) : (sl.toks.length : Int) = sl.size := by
+  have := wf_opens_le hwf
+  simp only [Slice.toks, List.length_take, List.length_drop, ftoks_length, Slice.size]
+  omega
+
+theorem merged_toks (c c' : List Node) (a b' : Nat) (ha : a ≤ fsize c) (hb : b' ≤ fsize c') :
+    (Slice.mk (fappend c c') a b').toks = (Slice.mk c a 0).toks ++ (Slice.mk c' 0 b').toks := by
+  simp only [Slice.toks, fappend_toks, fappend_size]
+  rw [← ftoks_length c, ← ftoks_length c'] at *
+  generalize ftoks c = T at *
+  generalize ftoks c' = T' at *
+  rw [List.drop_append_of_le_length ha]
+  have e1 : T.length + T'.length - a - b' = (T.drop a).length + (T'.length - b') := by
+    simp; omega
+  rw [e1, List.take_length_add_append]
+  have e2 : (T.drop a).take (T.length - a) = T.drop a := List.take_of_length_le (by simp)
+  simp [e2]
+
+theorem splice_splice_right {α} (L A B : List α) (f t t' : Nat) (hf : f ≤ L.length)
+    (ht' : f + A.length ≤ t') :
+    (L.take f ++ A ++ L.drop t).take (f + A.length) ++ B ++ (L.take f ++ A ++ L.drop t).drop t' =
+      L.take f ++ (A ++ B) ++ L.drop (t + (t' - (f + A.length))) := by
+  have hl : (L.take f ++ A).length = f + A.length := by simp; omega
+  rw [List.take_left' hl]
+  obtain ⟨k, rfl⟩ : ∃ k, t' = (L.take f ++ A).length + k := ⟨t' - (f + A.length), by omega⟩
+  rw [List.drop_append, List.drop_drop, hl]
+  simp
+  omega
+
+theorem splice_splice_left {α} (L A B : List α) (f f' t : Nat) (hf : f ≤ L.length) (hf' : f' ≤ f) :
+    (L.take f ++ A ++ L.drop t).take f' ++ B ++ (L.take f ++ A ++ L.drop t).drop f =
+      L.take f' ++ (B ++ A) ++ L.drop t := by
+  have hl : (L.take f).length = f := by simp; omega
+  rw [List.append_assoc (L.take f), List.drop_left' hl, List.take_append_of_le_length (by omega),
+    List.take_take, Nat.min_eq_left hf']
+  simp
+
+/-! ### replace / replace -/
+
+theorem merge_replace_toks (S : Schema) (d d1 d2 d' : Node) (f t f' t' : Nat) (sl sl' : Slice) (m : Step)
+    (h1 : S.apply (.replace f t sl false) d = .ok d1)
+    (h2 : S.apply (.replace f' t' sl' false) d1 = .ok d2)
+    (hm : (Step.replace f t sl false).merge (.replace f' t' sl' false) = some m)
+    (h' : S.apply m d = .ok d') :
+    ftoks d'.kids = ftoks d2.kids ∧ d'.sameMarkup d2 = true := by
+  obtain ⟨e1, hft, htl, hwf, hs1⟩ := fromReplace_toks S d d1 f t sl (apply_replace_from _ _ _ _ _ _ _ h1)
+  obtain ⟨e2, hft', htl', hwf', hs2⟩ := fromReplace_toks S d1 d2 f' t' sl' (apply_replace_from _ _ _ _ _ _ _ h2)
+  have hlen := ftoks_length d.kids
+  have hlen1 := ftoks_length d1.kids
+  have hsz := Slice.toks_length_of_wf hwf
+  have hsz' := Slice.toks_length_of_wf hwf'
+  have ho := wf_opens_le hwf
+  have ho' := wf_opens_le hwf'
+  simp only [Step.merge, Bool.or_self, Bool.false_eq_true, if_false] at hm
+  split at hm
+  · rename_i hc
+    simp only [Bool.and_eq_true, decide_eq_true_eq] at hc
+    obtain ⟨⟨hc1, hc2⟩, hc3⟩ := hc
+    simp only [Option.some.injEq] at hm; subst hm
+    obtain ⟨e', _, _, _, hs'⟩ := fromReplace_toks _ _ _ _ _ _ (apply_replace_from _ _ _ _ _ _ _ h')
+    refine ⟨?_, sameMarkup_join hs' (sameMarkup_trans hs2 hs1)⟩
+    rw [e', e2, e1]
+    have hf' : f' = f + sl.toks.length := by omega
+    subst hf'
+    rw [splice_splice_right _ _ _ _ _ _ (by omega) (by omega)]
+    congr 2
+    split
+    · have z1 : sl.toks = [] := List.eq_nil_of_length_eq_zero (by omega)
+      have z2 : sl'.toks = [] := List.eq_nil_of_length_eq_zero (by omega)
+      rw [z1, z2]; rfl
+    · obtain ⟨c, a, b⟩ := sl
+      obtain ⟨c', a', b'⟩ := sl'
+      simp only at hc2 hc3 ho ho'
+      subst hc2 hc3
+      exact merged_toks c c' a b' (by omega) (by omega)
+  · split at hm
+    · rename_i hc
+      simp only [Bool.and_eq_true, decide_eq_true_eq] at hc
+      obtain ⟨⟨hc1, hc2⟩, hc3⟩ := hc
+      simp only [Option.some.injEq] at hm; subst hm
+      obtain ⟨e', _, _, _, hs'⟩ := fromReplace_toks _ _ _ _ _ _ (apply_replace_from _ _ _ _ _ _ _ h')
+      refine ⟨?_, sameMarkup_join hs' (sameMarkup_trans hs2 hs1)⟩
+      rw [e', e2, e1]
+      subst hc1
+      rw [splice_splice_left _ _ _ _ _ _ (by omega) hft']
+      congr 2
+      split
+      · have z1 : sl.toks = [] := List.eq_nil_of_length_eq_zero (by omega)
+        have z2 : sl'.toks = [] := List.eq_nil_of_length_eq_zero (by omega)
+        rw [z1, z2]; rfl
+      · obtain ⟨c, a, b⟩ := sl
+        obtain ⟨c', a', b'⟩ := sl'
+        simp only at hc2 hc3 ho ho'
+        subst hc2 hc3
+        exact merged_toks c' c a' b (by omega) (by omega)
+    · simp at hm
+
+/-! ### mark / mark -/
+
+theorem ctxAux_shape : ∀ (l l' : List Tok) (st : List TypeId),
+    l.map Tok.shape = l'.map Tok.shape → ctxAux st l = ctxAux st l'
+  | [], [], _, _ => rfl
+  | [], _ :: _, _, h => by simp at h
+  | _ :: _, [], _, h => by simp at h
+  | a :: r, b :: r', st, h => by
+    simp only [List.map_cons, List.cons.injEq] at h
+    obtain ⟨hab, hr⟩ := h
+    cases a <;> cases b <;> simp [Tok.shape] at hab <;>
+      simp [ctxAux, hab, ctxAux_shape r r' _ hr]
+
+theorem mapIdxCtx_length (g : Nat → TypeId → Tok → Tok) (top : TypeId) (l : List Tok) :
+    (mapIdxCtx g top l).length = l.length := by
+  simp [mapIdxCtx]
+
+/-- two index/context-wise maps that keep the shapes compose pointwise -/
+theorem mapIdxCtx_comp (g1 g2 g : Nat → TypeId → Tok → Tok) (top : TypeId) (l : List Tok)
+    (hshape : ∀ i p tok, (g1 i p tok).shape = tok.shape)
+    (h : ∀ i p tok, g2 i p (g1 i p tok) = g i p tok) :
+    mapIdxCtx g2 top (mapIdxCtx g1 top l) = mapIdxCtx g top l := by
+  have hctx : ctxOf top (mapIdxCtx g1 top l) = ctxOf top l :=
+    ctxAux_shape _ _ _ (mapIdxCtx_shape g1 top l hshape)
+  apply List.ext_getElem?
+  intro i
+  rw [mapIdxCtx_getElem?, mapIdxCtx_getElem?, mapIdxCtx_length, hctx]
+  by_cases hi : i < l.length
+  · rw [if_pos hi]
+    have : (mapIdxCtx g1 top l).getD i Tok.cl = g1 i ((ctxOf top l).getD i 0) (l.getD i Tok.cl) := by
+      rw [List.getD_eq_getElem?_getD, mapIdxCtx_getElem?, if_pos hi]; rfl
+    rw [this, h, if_pos hi]
+  · rw [if_neg hi, if_neg hi]
+
+theorem isAtomTok_withMarks (S : Schema) (m : Marks) (tok : Tok) :
+    isAtomTok S (tok.withMarks m) = isAtomTok S tok := by cases tok <;> rfl
+
+theorem isInlineTok_withMarks (S : Schema) (m : Marks) (tok : Tok) :
+    isInlineTok S (tok.withMarks m) = isInlineTok S tok := by cases tok <;> rfl
+
+theorem marks_withMarks_atom (S : Schema) (m : Marks) (tok : Tok) (h : isAtomTok S tok = true) :
+    (tok.withMarks m).marks = m := by
+  cases tok <;> simp_all [isAtomTok, Tok.withMarks, Tok.marks]
+
+theorem marks_withMarks_inline (S : Schema) (m : Marks) (tok : Tok) (h : isInlineTok S tok = true) :
+    (tok.withMarks m).marks = m := by
+  cases tok <;> simp_all [isInlineTok, Tok.withMarks, Tok.marks]
+
+theorem withMarks_withMarks (m m' : Marks) (tok : Tok) :
+    (tok.withMarks m).withMarks m' = tok.withMarks m' := by cases tok <;> rfl
+
+/-- adding the same mark twice is adding it once -/
+theorem addToSet_idem (S : Schema) (m : Mark) (s : Marks) :
+    m.addToSet S (m.addToSet S s) = m.addToSet S s := by
+  rw [addToSet_eq S m s]
+  split
+  · rename_i hc
+    rw [addToSet_eq, if_pos hc]
+  · rw [addToSet_eq, if_pos]
+    have : m ∈ insertByRank m (s.filter (fun o => !S.excludes m.ty o.ty)) :=
+      (mem_insertByRank m m _).mpr (Or.inl rfl)
+    simp only [Bool.or_eq_true, List.any_eq_true, beq_iff_eq]
+    exact Or.inl ⟨m, this, rfl⟩
+
+theorem removeFromSet_idem (m : Mark) (s : Marks) :
+    m.removeFromSet (m.removeFromSet s) = m.removeFromSet s := by
+  simp [Mark.removeFromSet]
+
+/-- composing two "apply `F` on a window, where the guard `A` holds" maps -/
+theorem window_comp {α} (F : α → α) (A : α → Prop) (f t f' t' i : Nat) (x : α)
+    [∀ y, Decidable (A y)]
+    (hA : ∀ y, A (F y) ↔ A y) (hF : ∀ y, A y → F (F y) = F y) (h1 : f ≤ t') (h2 : f' ≤ t) :
+    (if f' ≤ i ∧ i < t' ∧ A (if f ≤ i ∧ i < t ∧ A x then F x else x)
+      then F (if f ≤ i ∧ i < t ∧ A x then F x else x) else (if f ≤ i ∧ i < t ∧ A x then F x else x)) =
+    if min f f' ≤ i ∧ i < max t t' ∧ A x then F x else x := by
+  by_cases ha : A x
+  · have haF : A (F x) := (hA x).mpr ha
+    by_cases c1 : f ≤ i ∧ i < t
+    · have e : (if f ≤ i ∧ i < t ∧ A x then F x else x) = F x := if_pos ⟨c1.1, c1.2, ha⟩
+      rw [e, hF x ha]
+      have e3 : (if min f f' ≤ i ∧ i < max t t' ∧ A x then F x else x) = F x :=
+        if_pos ⟨by omega, by omega, ha⟩
+      rw [e3]
+      split <;> rfl
+    · have e : (if f ≤ i ∧ i < t ∧ A x then F x else x) = x := if_neg (fun h => c1 ⟨h.1, h.2.1⟩)
+      rw [e]
+      by_cases c2 : f' ≤ i ∧ i < t'
+      · rw [if_pos ⟨c2.1, c2.2, ha⟩, if_pos ⟨by omega, by omega, ha⟩]
+      · rw [if_neg (fun h => c2 ⟨h.1, h.2.1⟩), if_neg (fun h => by omega)]
+  · have e : (if f ≤ i ∧ i < t ∧ A x then F x else x) = x := if_neg (fun h => ha h.2.2)
+    rw [e, if_neg (fun h => ha h.2.2), if_neg (fun h => ha h.2.2)]
+
+theorem addMarkToks_merge (S : Schema) (m : Mark) (f t f' t' : Nat) (top : TypeId) (l : List Tok)
+    (h1 : f ≤ t') (h2 : f' ≤ t) :
+    addMarkToks S m f' t' top (addMarkToks S m f t top l) =
+      addMarkToks S m (min f f') (max t t') top l := by
+  unfold addMarkToks
+  apply mapIdxCtx_comp
+  · intro i p tok
+    split
+    · exact Tok.withMarks_shape _ _
+    · rfl
+  · intro i p tok
+    exact window_comp (fun tok => tok.withMarks (m.addToSet S tok.marks))
+      (fun tok => isAtomTok S tok = true ∧ (S.nodeType p).allowsMarkType m.ty = true) f t f' t' i tok
+      (fun y => by simp only [isAtomTok_withMarks])
+      (fun y hy => by
+        simp only [marks_withMarks_atom S _ y hy.1, withMarks_withMarks, addToSet_idem]) h1 h2
+
+theorem removeMarkToks_merge (S : Schema) (m : Mark) (f t f' t' : Nat) (top : TypeId) (l : List Tok)
+    (h1 : f ≤ t') (h2 : f' ≤ t) :
+    removeMarkToks S m f' t' top (removeMarkToks S m f t top l) =
+      removeMarkToks S m (min f f') (max t t') top l := by
+  unfold removeMarkToks
+  apply mapIdxCtx_comp
+  · intro i p tok
+    split
+    · exact Tok.withMarks_shape _ _
+    · rfl
+  · intro i p tok
+    exact window_comp (fun tok => tok.withMarks (m.removeFromSet tok.marks))
+      (fun tok => isInlineTok S tok = true) f t f' t' i tok
+      (fun y => by simp only [isInlineTok_withMarks])
+      (fun y hy => by
+        simp only [marks_withMarks_inline S _ y hy, withMarks_withMarks, removeFromSet_idem]) h1 h2
+
 end PM
